@@ -384,6 +384,39 @@ def check_span_shapes(mm, rep):
     rep.floor("R16.3", n, 4, "multi-span shapes of the packed-meets-bytes arm evaluated against the one-span shapes")
 
 
+def check_listing_order(mm, rep):
+    """R16.3 (listing order): a packed encoding is a SET of spans; the order in which the vector lists them is whatever the
+    producer used (merge's own outputs are sorted, `TE::packed_of` takes any order). An arm that reads a span by position
+    (`first()`, `[i]`) from the unsorted list - outside the cases where the list has at most one element - answers differently
+    for two listings of the same evidence, and differently before and after the encoding has met another packed encoding."""
+    n = 0
+    for arm in mm.arms:
+        binds = {lid for lid, (name, path) in F.pat_bindings(arm.node["pat"]).items() if path and path[-1][1] == "types"}
+        if not binds:
+            continue
+        body = arm.node["body"]
+        # nodes under `match types.len() { 0 | 1 => .. }`
+        small = set()
+        for m, _ in F.exprs(body, "Match"):
+            sc = F.strip(m["scrut"])
+            if sc.get("k") == "MethodCall" and sc["method"] == "len" and F.local_of(F.strip(sc["recv"])) in binds:
+                for a in m["arms"]:
+                    if a["pat"].get("p") == "Lit" and str(a["pat"]["value"].get("v")) in ("0", "1"):
+                        small |= {id(x) for x, _ in F.walk(a["body"])}
+        for x, ps in F.walk(body):
+            recv = None
+            if x.get("k") == "MethodCall" and x["method"] in ("first", "last", "get", "first_mut", "last_mut", "split_first", "split_last"):
+                recv = x["recv"]
+            elif x.get("k") == "Index":
+                recv = x.get("base") or x.get("lhs") or x.get("e")
+            if recv is None or F.local_of(F.strip(recv)) not in binds or id(x) in small:
+                continue
+            n += 1
+            k = sum(1 for y in rep.instances.get("R16.3", []) if y.startswith(f"listing-order:{arm.label()}#")) + 1
+            rep.oblige(False, "R16.3", f"listing-order:{arm.label()}#{k}", F.loc(x["span"]), f"the arm {arm.label()} reads a span of the packed encoding by its position in the (unsorted) list: two listings of the same spans are combined differently, and the outcome changes once the encoding has been merged with another one (whose output is sorted) - the result depends on the grouping")
+    rep.inst("R16.3", "listing-order-scan", sample={"rule": "R16.3", "positional_reads_of_unsorted_span_lists": n})
+
+
 def check_absorption(mm, rep):
     """R16.3"""
     L, R = mm.left, mm.right
@@ -537,6 +570,7 @@ def check(fx, rep, tier):
         check_usage_laws(fx, rep, "R16.2", usages, table, want_upper_bound=False)
     check_absorption(mm, rep)
     check_span_shapes(mm, rep)
+    check_listing_order(mm, rep)
     check_combine(fx, rep)
     # the outcome may not depend on which type variables stand for the parts: no ordering by identity inside merge and its helpers
     from .c02 import check_identity_order
